@@ -41,7 +41,7 @@ def required_cells(tier):
             "history>=200-once-skips", "db:no-directory-after-directory", "db:relative-directory",
             "stateful-option:same-compiler-twice", "stateful-option:different-values", "same-arguments-different-directory",
             "class:U-unresolvable-includes", "header-missing-for-one-command-found-by-another", "unknown-compiler-after-known-one",
-            "member-header-shared-by-fortran-and-c"]
+            "member-header-shared-by-fortran-and-c", "cross-command:push-pop-pragmas", "cross-command:unevaluable-condition-in-another-platform"]
 
 
 def gen_case(rng):
@@ -299,6 +299,80 @@ def check_mixed_language_member(ctx, base):
         acc.violated({"input": {"stateful": True, "scenario": "mixed-language-member"}, "witness": {"files": files, "problems": problems[:3]}}, cells=cells, cls="S")
     else:
         acc.held(cells=cells, cls="S", nontrivial={"scenario": "mixed-language-member"})
+
+
+def check_cross_command_scenarios(ctx, base):
+    """Two fixed scenarios in which one command could leave something behind for a later one:
+      P  `#pragma push_macro("TRACE")` without a pop in one unit (built with -DTRACE=1), a stray `#pragma pop_macro("TRACE")`
+         in another unit of the same platform (no TRACE): for a compiler neither changes anything, and whatever the
+         analysis does with them must stay inside the translation unit;
+      U  a shared header tests `#if API_LEVEL >= 2`; one platform's command defines API_LEVEL as nothing (which makes
+         the condition unevaluable -- a compiler rejects that command), another defines it as 3: the analysis may
+         refuse the whole input, but if it produces a result, the healthy platform's lines equal those it gets alone."""
+    from codebasin import CodeBase, finder
+    acc = ctx.acc
+    scen = {
+        "P": ({"hot_loop.c": "#pragma push_macro(\"TRACE\")\n#ifdef TRACE\nint traced;\n#else\nint quiet;\n#endif\n",
+               "util.c": "#pragma pop_macro(\"TRACE\")\n#ifdef TRACE\nint util_traced;\nint util_traced2;\n#else\nint util_quiet;\n#endif\n",
+               "other.c": "#pragma pop_macro(\"TRACE\")\n#pragma push_macro(\"TRACE\")\n#if TRACE == 1\nint o1;\n#endif\n"},
+              [("hot_loop.c", "p", ["TRACE=1"]), ("util.c", "p", []), ("other.c", "q", ["TRACE=1"]), ("util.c", "q", [])]),
+        "U": ({"version.h": "#if API_LEVEL >= 2\nint v2;\n#else\nint v1;\n#endif\n",
+               "modern.c": "#include \"version.h\"\n#if API_LEVEL >= 2\nint m2;\nint m2b;\n#else\nint m1;\n#endif\n",
+               "legacy.c": "#include \"version.h\"\nint legacy;\n"},
+              [("legacy.c", "legacy", ["API_LEVEL="]), ("modern.c", "modern", ["API_LEVEL=3"])]),
+    }
+    for name, (files, cmds) in scen.items():
+        shutil.rmtree(base, ignore_errors=True)
+        root = os.path.join(base, "root")
+        os.makedirs(root)
+        for rel, text in files.items():
+            with open(os.path.join(root, rel), "w") as f:
+                f.write(text)
+
+        def run(sel):
+            cb = CodeBase(root)
+            conf = {}
+            for fn, p, defs in sel:
+                conf.setdefault(p, []).append({"file": os.path.join(root, fn), "defines": list(defs), "include_paths": [root], "include_files": []})
+            st = finder.find(root, cb, conf, show_progress=False)
+            res = {}
+            for rel in files:
+                lines, _ = cbi.per_line(st, os.path.join(root, rel))
+                res[rel] = {ln: sorted(ps) for ln, ps in lines.items()}
+            return res
+
+        def part(res, plat):
+            return {rel: sorted(ln for ln, ps in lines.items() if plat in ps) for rel, lines in res.items()}
+
+        problems = []
+        cells = {"cross-command:" + ("push-pop-pragmas" if name == "P" else "unevaluable-condition-in-another-platform")}
+        plats = sorted({p for _, p, _ in cmds})
+        alone = {}
+        for p in plats:
+            try:
+                alone[p] = part(run([c for c in cmds if c[1] == p]), p)
+            except Exception as e:
+                alone[p] = f"refused: {type(e).__name__}"
+        for order in (cmds, list(reversed(cmds))):
+            try:
+                full = run(order)
+                acc.hook("find")
+            except Exception as e:
+                cells.add("cross-command:analysis-refused")
+                continue
+            cells.add("cross-command:analysis-completed")
+            for p in plats:
+                if isinstance(alone[p], str):
+                    continue
+                got = part(full, p)
+                if got != alone[p]:
+                    problems.append({"kind": "lines of a platform differ from those it gets when analysed alone", "platform": p,
+                                     "order": [c[0] + ":" + c[1] for c in order], "alone": alone[p], "together": got})
+        case = {"stateful": True, "scenario": "cross-command-" + name}
+        if problems:
+            acc.violated({"input": case, "witness": {"files": files, "commands": cmds, "problems": problems[:3]}}, cells=cells, cls="S")
+        else:
+            acc.held(cells=cells, cls="S", nontrivial=case)
 
 
 def check_same_arguments_other_directory(ctx, rng, base):
@@ -602,6 +676,8 @@ def run_shard(ctx):
             check_unresolvable(ctx, case, base)
     if ctx.shard == 0:
         check_mixed_language_member(ctx, base)
+    if ctx.shard == 1 % ctx.nshards:
+        check_cross_command_scenarios(ctx, base)
     rng = ctx.rng("stateful")
     for i in range(b["stateful"]):
         import random as _r
